@@ -55,6 +55,13 @@ def build_image(case):
         body = size
         data_offset = 0xFFFFFFFFFFFFFFFF
         disk_type = 2
+        if case.get("nested") and size >= 4096:
+            # the guest's own data starts with a dynamic VHD (an image stored raw on the disk): footer copy, dynamic
+            # header, an all-sparse table.  It is guest data like any other; the file's own footer is the one at its end.
+            inner = 5 * 1048576
+            chunks[0] = build_footer(inner, 512, 3) + b"\x00"
+            chunks[512] = build_dyn_header(1536, 5, 1048576)
+            chunks[1536] = b"\xff" * 512
     else:
         data_offset = 512
         disk_type = 3
@@ -81,6 +88,7 @@ def gen_case(rng, tier):
         nsect = rng.pick([1, 3, 16, 17, 100, 5000])
         c["size"] = nsect * SECTOR
         size = c["size"]
+        c["nested"] = nsect >= 16 and rng.chance(0.5)
     else:
         spb = rng.weighted([(1, 1), (2, 2), (3, 1), (4, 3), (8, 3), (16, 2), (24, 1), (64, 1), (4096, 1), (16384, 1), (65536, 1)])
         maxb = 40 if tier == "thorough" else 12
@@ -162,6 +170,15 @@ def gen_case(rng, tier):
             if n > 4_000_000:
                 n = 4_000_000
             reqs.append(["bytes", off, n])
+    # history on one object: part of a block, then a read somewhere else (a block not looked at before), then the
+    # continuation exactly where the first read stopped
+    if nsect >= 8:
+        s1 = rng.randrange(0, max(1, nsect - 4))
+        n1 = max(1, min(rng.randint(1, max(1, spb_ // 2 + 1)), nsect - s1 - 1))
+        other = rng.randrange(0, nsect)
+        reqs.append(["sectors", s1, n1])
+        reqs.append(["sectors", other, min(2, nsect - other)])
+        reqs.append(["sectors", s1 + n1, max(1, min(nsect - s1 - n1, rng.randint(1, spb_ + 2)))])
     if c.get("max_entries", 0) > 16384:
         for _ in range(6):
             b = rng.randrange(16380, nblocks if kind != "fixed" else 1)
